@@ -90,12 +90,16 @@ def fixed_canaries(rep, wd, items, module="Trace_Refine", extra=None):
     for it, r in zip(items, res):
         lines, opts, scripts, old, new = it
         if "out" not in r or old not in r["out"]:
-            raise common.MachineryError("canary: expected text %r not in the output of %r: %r" % (old, lines, r))
+            # the tree under test does not produce the text this canary corrupts (a changed translator): nothing to corrupt
+            rep.count("fixed_canaries_skipped")
+            continue
         r2 = {"out": r["out"].replace(old, new, 1)}
         c = gen.program_case(len(cases) + 1, lines, opts, scripts, 200, r2, {"tag": "canary"})
         if extra:
             c.update(extra)
         cases.append(c)
+    if not cases:
+        return
     vds = common.judge(module, cases, rep, wd)
     bad = [(c["srctext"], c["outtext"]) for c, v in zip(cases, vds) if v["ok"]]
     rep.count("fixed_canaries", len(cases))
